@@ -2,16 +2,17 @@
    serializer adds only delimiters.  Together with Proofs/Termination.v (at most 14 * (n + 3) - 2
    loop iterations) this is the part of "no quadratic blow-up" that a functional model can carry.
 
-   Z1  percentEncodeRune_len, utf8_enc_len         one code point -> at most 12 / 4 bytes
-   Z2  step_size                                   growth of  usize url + len buffer  per iteration
-       parseHost_size                              the host parser is linear (IDNA oracle: hypothesis Hlin)
-       step_potential                              a potential that never increases along a run
-   Z3  run_size, BasicParser_size, Parse_size, UrlParse_size
-   Z4  Href_size
-   Z5  buffer discipline: buf_bound, scanned_total (see the comment at the end of the file)
+   Z1  utf8_enc_len, percentEncodeRune_len          one code point -> at most 4 / 12 bytes
+   Z2  parseHost_size                               the host parser is linear (IDNA oracle: premise Hlin)
+       step_size                                    growth of  usize url + len buffer  in one iteration
+       step_potential                               a potential that never increases along a run
+   Z3  run_size, BasicParser_size, Parse_size, UrlParse_size, ParseRef_size
+           usize u <= 144 * (A + 1) * len s + (276 * (A + 1) + 12 * B + 46)  [+ usize base]
+   Z4  Href_size, Parse_Href_size                   len (Href u) <= usize u + 8
+   Z5  buf_bound, scanned_total                     buffer discipline (see SUMMARY at the end)
 
-   No construct of the MODEL grows more than linearly.  Two places of the Go code do work that is
-   not visible in the size of anything, see the comment "WORK" at the end. *)
+   No construct of the MODEL grows more than linearly; see SUMMARY at the end of the file for the
+   two hypotheses the proofs need and for the work that the sizes do not show. *)
 From Verif Require Import Lib.Base Lib.Utf8 Lib.GoStr Model.Cfg Gen.Tables Model.Sets Model.Percent Model.Url Model.Host Model.Machine Model.Api.
 From Verif Require Import Proofs.Termination.
 From Coq Require Import Lia ZifyBool ZifyN ZifyNat.
@@ -812,6 +813,7 @@ Section HostSize.
 End HostSize.
 Print Assumptions parseHost_size.
 
+
 (* ------------------------------------------------------------------------------------------ *)
 (* 3. The state machine: a potential that never increases                                      *)
 (* ------------------------------------------------------------------------------------------ *)
@@ -1036,13 +1038,8 @@ Section Size.
     pose proof (Z.mul_le_mono_nonneg_l 0 (p + 1) G ltac:(lia) ltac:(lia));
     pose proof (Z.mul_le_mono_nonneg_l 0 n G ltac:(lia) ltac:(lia)).
 
-  Ltac finp p :=
-    unfold Qp, ubound, Psi, SInv, R, mk; cbn [m_state m_ptr m_eof m_buf m_url wbuf resets cst bcopy];
-    repeat match goal with |- context [(?a <=? ?b)%Z] => destruct (a <=? b)%Z eqn:? end;
-    repeat split; intros; try discriminate;
-    arith p; facts;
-    try match goal with Hb : len (runes ?b) <= p + 1 |- _ =>
-          pose proof (Z.mul_le_mono_nonneg_l _ _ G ltac:(lia) Hb) end;
+  Ltac post :=
+    facts;
     try match goal with E : base = _ |- _ => unfold bsz, bsch in *; rewrite E in * end;
     unfold usize in *;
     cbn [set_input set_scheme set_username set_password set_host set_port set_path set_query set_fragment
@@ -1058,6 +1055,14 @@ Section Size.
            | H : context [osize ?q] |- _ => note (osize_nonneg q)
            end;
     unfold len in *; cbn [length] in *.
+  Ltac finp p :=
+    unfold Qp, ubound, Psi, SInv, R, mk; cbn [m_state m_ptr m_eof m_buf m_url wbuf resets cst bcopy];
+    repeat match goal with |- context [(?a <=? ?b)%Z] => destruct (a <=? b)%Z eqn:? end;
+    repeat split; intros; try discriminate;
+    arith p;
+    try match goal with Hb : len (runes ?b) <= p + 1 |- _ =>
+          pose proof (Z.mul_le_mono_nonneg_l _ _ G ltac:(lia) Hb) end;
+    post.
   Ltac quick :=
     unfold Qp, ubound, SInv, mk; cbn [m_state m_ptr m_eof m_buf m_url];
     repeat match goal with |- context [(?a <=? ?b)%Z] => destruct (a <=? b)%Z eqn:? end;
@@ -1238,7 +1243,145 @@ Section Size.
     rewrite (@len_nil N) in H. lia.
   Qed.
 
+  (* ---------------------------------------------------------------------------------------- *)
+  (* Z2, local form: the growth of  usize url + len buffer  in ONE iteration, from ANY machine   *)
+  (* state (no invariant on pointer or flags is needed).  The constant is 25 and not 12 because  *)
+  (* in the opaque-path state the 12 bytes are appended to the buffer AND the path is set to the *)
+  (* buffer; everywhere else it is at most 12.                                                   *)
+  (* ---------------------------------------------------------------------------------------- *)
+  Definition growth (m : mstate) : Z :=
+    match m_state m with
+    | HostSt | HostnameSt | FileHost => hsz (m_buf m) + HC           (* the host parser's result *)
+    | Authority => 12 * (len (runes (m_buf m)) + 3)                  (* credentials, "%40" *)
+    | NoScheme | Relative | RelativeSlash | File | FileSlash => bsz  (* components of the base *)
+    | _ => 0
+    end.
+  Definition opq (m : mstate) : Prop :=
+    m_state m = OpaquePath -> len (m_buf m) <= psize (u_path (m_url m)).
+  Definition lbound (m : mstate) (u : url) : Prop := usize u <= msize m + 25 + growth m.
+  Definition Ql (m : mstate) (o : outcome) : Prop :=
+    match o with
+    | Cont m' => if m_eof m' then lbound m (m_url m')                       (* last iteration: the buffer is dead *)
+                 else msize m' <= msize m + 25 + growth m /\ opq m'
+    | RetUrl u' | RetErr u' _ | RetNilNil u' => lbound m u'
+    | Panic => True
+    end.
+
+  Lemma Ql_mherr m u t f k : lbound m u -> (forall u', same u u' -> Ql m (k u')) -> Ql m (mherr c u t f k).
+  Proof.
+    intros Hu H. unfold mherr. pose proof (handleError_same c u t f) as Hs.
+    destruct (handleError c u t f) as [u' [e|]]; cbn [fst] in Hs; [|apply H; assumption].
+    cbn [Ql]. unfold lbound in *. destruct Hs as [Hs _]. lia.
+  Qed.
+  Lemma Ql_mherr_true m u t k : lbound m u -> Ql m (mherr c u t true k).
+  Proof.
+    intros Hu. unfold mherr. pose proof (handleError_same c u t true) as Hs.
+    unfold handleError in *. cbn [fst orb] in *. cbn [Ql]. unfold lbound in *. destruct Hs as [Hs _]. lia.
+  Qed.
+
+  Ltac lwalk :=
+    repeat first
+      [ progress cbv beta
+      | match goal with
+        | |- Ql _ (mherr _ _ _ true _) => apply Ql_mherr_true
+        | |- Ql _ (mherr _ _ _ _ _) => apply Ql_mherr; [|intros ?u' ?Hu']
+        | |- Ql _ ((if ?b then _ else _) _) => destruct b eqn:?
+        | |- Ql _ (if ?b then _ else _) => destruct b eqn:?
+        | |- Ql _ (match ?x with _ => _ end) => destruct x eqn:?
+        | |- Ql _ ?o =>
+            match o with
+            | context [if ?b then _ else _] => destruct b eqn:?
+            | context [match ?x with [] => _ | _ :: _ => _ end] => destruct x eqn:?
+            | context [match ?x with Some _ => _ | None => _ end] => destruct x eqn:?
+            | context [match ?x with Good _ => _ | Bad _ => _ end] => destruct x eqn:?
+            end
+        end ].
+
+  Ltac lstart m Hst Hs :=
+    destruct m as [st p e buf aF brF pwF u]; cbn [m_state] in Hst; subst st;
+    unfold opq in Hs; cbn [m_state m_buf m_url] in Hs; first [specialize (Hs eq_refl) | clear Hs];
+    cbv beta iota zeta delta [step m_state m_ptr m_eof m_buf m_at m_br m_pw m_url];
+    destruct (n <=? p + 1)%Z eqn:En; [|destruct e].
+
+  Ltac lfin :=
+    try exact I;
+    unfold Ql, lbound, msize, growth, opq, mk; cbn [m_state m_ptr m_eof m_buf m_url];
+    repeat match goal with |- context [(?a <=? ?b)%Z] => destruct (a <=? b)%Z eqn:? end;
+    repeat split; intros; try discriminate;
+    pose proof H_ge; pose proof HC_ge; pose proof bsz_facts;
+    post; lia.
+
+  Lemma L_SchemeStart m : m_state m = SchemeStart -> opq m -> Ql m (stepf m).
+  Proof. intros Hst Hs. lstart m Hst Hs; lwalk; lfin. Qed.
+  Lemma L_Scheme m : m_state m = Scheme -> opq m -> Ql m (stepf m).
+  Proof. intros Hst Hs. lstart m Hst Hs; lwalk; lfin. Qed.
+  Lemma L_NoScheme m : m_state m = NoScheme -> opq m -> Ql m (stepf m).
+  Proof. intros Hst Hs. lstart m Hst Hs; lwalk; lfin. Qed.
+  Lemma L_OpaquePath m : m_state m = OpaquePath -> opq m -> Ql m (stepf m).
+  Proof. intros Hst Hs. lstart m Hst Hs; lwalk; lfin. Qed.
+  Lemma L_SpecialRelativeOrAuthority m : m_state m = SpecialRelativeOrAuthority -> opq m -> Ql m (stepf m).
+  Proof. intros Hst Hs. lstart m Hst Hs; lwalk; lfin. Qed.
+  Lemma L_SpecialAuthoritySlashes m : m_state m = SpecialAuthoritySlashes -> opq m -> Ql m (stepf m).
+  Proof. intros Hst Hs. lstart m Hst Hs; lwalk; lfin. Qed.
+  Lemma L_SpecialAuthorityIgnoreSlashes m : m_state m = SpecialAuthorityIgnoreSlashes -> opq m -> Ql m (stepf m).
+  Proof. intros Hst Hs. lstart m Hst Hs; lwalk; lfin. Qed.
+  Lemma L_PathOrAuthority m : m_state m = PathOrAuthority -> opq m -> Ql m (stepf m).
+  Proof. intros Hst Hs. lstart m Hst Hs; lwalk; lfin. Qed.
+  Lemma L_Authority m : m_state m = Authority -> opq m -> Ql m (stepf m).
+  Proof. intros Hst Hs. lstart m Hst Hs; destruct aF; lwalk; lfin. Qed.
+  Lemma L_HostSt m : m_state m = HostSt -> opq m -> Ql m (stepf m).
+  Proof. intros Hst Hs. lstart m Hst Hs; lwalk; lfin. Qed.
+  Lemma L_HostnameSt m : m_state m = HostnameSt -> opq m -> Ql m (stepf m).
+  Proof. intros Hst Hs. lstart m Hst Hs; lwalk; lfin. Qed.
+  Lemma L_File m : m_state m = File -> opq m -> Ql m (stepf m).
+  Proof. intros Hst Hs. lstart m Hst Hs; lwalk; lfin. Qed.
+  Lemma L_FileHost m : m_state m = FileHost -> opq m -> Ql m (stepf m).
+  Proof. intros Hst Hs. lstart m Hst Hs; lwalk; lfin. Qed.
+  Lemma L_FileSlash m : m_state m = FileSlash -> opq m -> Ql m (stepf m).
+  Proof. intros Hst Hs. lstart m Hst Hs; lwalk; lfin. Qed.
+  Lemma L_PortSt m : m_state m = PortSt -> opq m -> Ql m (stepf m).
+  Proof. intros Hst Hs. lstart m Hst Hs; lwalk; lfin. Qed.
+  Lemma L_PathSt m : m_state m = PathSt -> opq m -> Ql m (stepf m).
+  Proof. intros Hst Hs. lstart m Hst Hs; lwalk; lfin. Qed.
+  Lemma L_PathStart m : m_state m = PathStart -> opq m -> Ql m (stepf m).
+  Proof. intros Hst Hs. lstart m Hst Hs; lwalk; lfin. Qed.
+  Lemma L_QuerySt m : m_state m = QuerySt -> opq m -> Ql m (stepf m).
+  Proof. intros Hst Hs. lstart m Hst Hs; lwalk; lfin. Qed.
+  Lemma L_FragmentSt m : m_state m = FragmentSt -> opq m -> Ql m (stepf m).
+  Proof. intros Hst Hs. lstart m Hst Hs; lwalk; lfin. Qed.
+  Lemma L_Relative m : m_state m = Relative -> opq m -> Ql m (stepf m).
+  Proof. intros Hst Hs. lstart m Hst Hs; lwalk; lfin. Qed.
+  Lemma L_RelativeSlash m : m_state m = RelativeSlash -> opq m -> Ql m (stepf m).
+  Proof. intros Hst Hs. lstart m Hst Hs; lwalk; lfin. Qed.
+
+  Lemma step_Ql m : opq m -> Ql m (stepf m).
+  Proof.
+    intros Hs. destruct (m_state m) eqn:E;
+      eauto using L_SchemeStart, L_Scheme, L_NoScheme, L_OpaquePath, L_SpecialRelativeOrAuthority,
+        L_SpecialAuthoritySlashes, L_SpecialAuthorityIgnoreSlashes, L_PathOrAuthority, L_Authority,
+        L_HostSt, L_HostnameSt, L_File, L_FileHost, L_FileSlash, L_PortSt, L_PathSt, L_PathStart,
+        L_QuerySt, L_FragmentSt, L_Relative, L_RelativeSlash.
+  Qed.
+
+  Theorem step_size m :
+    opq m ->
+    match stepf m with
+    | Cont m' => if m_eof m' then usize (m_url m') <= msize m + 25 + growth m
+                 else msize m' <= msize m + 25 + growth m /\ opq m'
+    | RetUrl u' | RetErr u' _ | RetNilNil u' => usize u' <= msize m + 25 + growth m
+    | Panic => True
+    end.
+  Proof. intros Hs. pose proof (step_Ql m Hs) as H. destruct (stepf m); exact H. Qed.
+
+  (* opq is no restriction on the states of a run *)
+  Lemma reach_opq m : reach m -> opq m.
+  Proof. intros Hr. destruct (reach_inv m Hr) as [_ [H _]]. exact H. Qed.
+
 End Size.
+Print Assumptions step_potential.
+Print Assumptions step_size.
+Print Assumptions buf_bound.
+Print Assumptions scanned_total.
 
 (* ------------------------------------------------------------------------------------------ *)
 (* 4. The entry points: cleaning the input does not add code points                            *)
@@ -1438,6 +1581,7 @@ Print Assumptions run_size.
 Print Assumptions BasicParser_size.
 Print Assumptions Parse_size.
 Print Assumptions UrlParse_size.
+Print Assumptions ParseRef_size.
 
 (* ------------------------------------------------------------------------------------------ *)
 (* Z4. The serializer adds only delimiters                                                     *)
@@ -1479,3 +1623,119 @@ Proof.
   pose proof (Parse_size idna_raw A B Hlin c Hpre Hpost s u Hp) as H. unfold KA, K0 in H. lia.
 Qed.
 Print Assumptions Parse_Href_size.
+
+(* ------------------------------------------------------------------------------------------ *)
+(* 5. The premises hold for concrete values; concrete runs                                     *)
+(* ------------------------------------------------------------------------------------------ *)
+From Verif Require Import Gen.Options.
+From Coq Require Import String.
+
+(* the identity oracle of the other examples of this development: A = 1, B = 0 *)
+Definition sz_idna (s : str) : str * bool := (s, false).
+Example sz_idna_lin : forall d, len (fst (sz_idna d)) <= 1 * len d + 0.
+Proof. intros d. cbn [sz_idna fst]. lia. Qed.
+Example default_cfg_hostfuns : hostfun_ok (c_pre default_cfg) /\ hostfun_ok (c_post default_cfg).
+Proof. split; exact I. Qed.
+(* a user-supplied function that satisfies hostfun_ok, and one that does not *)
+Example hostfun_ok_example : hostfun_ok (HF_fun (fun h => 119%N :: 119%N :: 119%N :: 46%N :: h)).
+Proof. intros h. rewrite !len_cons. lia. Qed.
+Example hostfun_ok_needed : ~ hostfun_ok (HF_fun (fun h => h ++ h ++ h ++ h ++ h ++ h ++ h ++ h ++ h)).
+Proof. intros H. specialize (H [1%N]). vm_compute in H. apply H. reflexivity. Qed.
+
+(* the premises of step_potential / step_size hold in the initial state of a concrete run, and the run goes on *)
+Example step_premises :
+  let inp := decode (bs "http://h/") in
+  let m := m_init SchemeStart (empty_url []) in
+  Termination.Inv inp m /\ SInv m /\ opq m /\
+  exists m', step sz_idna default_cfg inp None None m = Cont m' /\ m_eof m' = false.
+Proof.
+  cbv zeta. split; [apply Inv_init|]. split; [apply SInv_init|]. split; [intros H; discriminate H|].
+  vm_compute. eexists. split; reflexivity.
+Qed.
+
+(* with the identity oracle and the default options:  usize u <= 288 * len s + 598 *)
+Corollary Parse_size_default s u :
+  Parse sz_idna default_cfg s = PUrl u -> usize u <= 288 * len s + 598.
+Proof.
+  intros H. pose proof (Parse_size sz_idna 1 0 sz_idna_lin default_cfg I I s u H) as G.
+  unfold KA, K0 in G. lia.
+Qed.
+
+Local Open Scope string_scope.
+Definition sz_of (r : pres) : Z := match r with PUrl u => usize u | _ => -1 end.
+Definition href_len (r : pres) : Z :=
+  match r with PUrl u => match Href u false with Some h => len h | None => -1 end | _ => -1 end.
+
+(* 20 bytes in, usize 12 (the delimiters are not counted, one per path segment is), 20 bytes out *)
+Example sz_run1 :
+  let r := Parse sz_idna default_cfg (bs "http://u:p@h:8/p?q#f") in sz_of r = 12 /\ href_len r = 20.
+Proof. vm_compute. split; reflexivity. Qed.
+(* the factor 12 is attained: U+1F600 (4 bytes) in a path becomes 12 bytes *)
+Example sz_run2 :
+  sz_of (Parse sz_idna default_cfg (bs "http://h/" ++ [240; 159; 152; 128]%N)%list) = 4 + 1 + 13.
+Proof. vm_compute. reflexivity. Qed.
+(* an invalid byte reads as U+FFFD: 1 byte in, 9 bytes out *)
+Example sz_run3 :
+  sz_of (Parse sz_idna default_cfg (bs "http://h/" ++ [255]%N)%list) = 4 + 1 + 10.
+Proof. vm_compute. reflexivity. Qed.
+(* many '@': every one is re-encoded as "%40", 3 bytes for 1 *)
+Example sz_run4 :
+  sz_of (Parse sz_idna default_cfg (bs "http://@@@@@@@@@@h/")) = 4 + 27 + 1 + 1.
+Proof. vm_compute. reflexivity. Qed.
+(* 200 invalid bytes in an opaque path: 202 bytes in, 1802 out (factor 9); the proved bound is 288 * 202 + 598 *)
+Example sz_run3b :
+  let r := Parse sz_idna default_cfg (bs "x:" ++ List.repeat 255%N 200)%list in sz_of r = 1802 /\ href_len r = 1802.
+Proof. vm_compute. split; reflexivity. Qed.
+(* a relative reference copies the base *)
+Example sz_run5 :
+  match Parse sz_idna default_cfg (bs "http://user:pw@host:81/a/b/c?q") with
+  | PUrl b => usize b = 23 /\ sz_of (UrlParse sz_idna default_cfg b (bs "#f")) = 24
+  | _ => False
+  end.
+Proof. vm_compute. split; reflexivity. Qed.
+(* the scanned-buffer total and the number of iterations on the first example *)
+Example sz_run6 :
+  let inp := decode (bs "http://u:p@h:8/p?q#f") in
+  run_scan sz_idna default_cfg inp None None 4000 (m_init SchemeStart (empty_url [])) = 15
+  /\ 12 * (14 * (len inp + 3) - 2) = 3840.
+Proof. vm_compute. split; reflexivity. Qed.
+
+(* ------------------------------------------------------------------------------------------ *)
+(* SUMMARY                                                                                     *)
+(*                                                                                             *)
+(* SIZE.  Nothing in the model grows more than linearly:                                       *)
+(*   - the pointer is moved back at most twice in a run (Scheme -> NoScheme, Authority ->      *)
+(*     Host), so every code point is read at most three times, each time adding at most        *)
+(*     48 * (A + 1) to the potential (the price of one code point in the host states: up to 4  *)
+(*     buffer bytes, each of which the host parser may turn into 12 * (A + 1) bytes; elsewhere *)
+(*     at most 12 bytes); that is where 3 * 48 * (A + 1) = 144 * (A + 1) comes from;           *)
+(*   - the base is copied at most once (usize b appears with coefficient 1);                   *)
+(*   - the host parser is applied to the buffer at most once per run.                          *)
+(*                                                                                             *)
+(* FORCED HYPOTHESES.  (1) Hlin, the linearity of the IDNA oracle, as asked.  (2) hostfun_ok   *)
+(* for the pre/post host functions: the option WithPreParseHostFunc/WithPostParseHostFunc      *)
+(* installs an arbitrary Go function, about which nothing can be proved; the functions the     *)
+(* library itself installs satisfy it (hostfun_gsb_len, hostfun_sem_len).                      *)
+(*                                                                                             *)
+(* WORK (what the size of the data does not show).  In the model each of the following is      *)
+(* linear in the size of its argument and is performed only in an iteration that ends the run  *)
+(* or empties the buffer, so scanned_total bounds their total cost by 168 * (len inp + 3):     *)
+(*   runes buf and cred_loop (Authority, on '@' and at the end of the authority),              *)
+(*   isSpecialScheme c buf / str_eqb buf "file" (Scheme, on ':'),                              *)
+(*   parseHost buf (Host, Hostname, FileHost), digits_val 10 buf (Port),                       *)
+(*   str_lower buf inside isSingleDotPathSegment/isDoubleDotPathSegment (Path, segment end),   *)
+(*   set_query/set_fragment (Some buf) (Query, Fragment).                                      *)
+(* The opaque-path state executes  set_path u [buf']  at EVERY code point; in the Go code that *)
+(* is  url.path.setOpaque(buffer.String())  with a strings.Builder, whose String() does not    *)
+(* copy, so it is O(1) there - with a bytes.Buffer it would be quadratic.  The model records   *)
+(* this as the invariant  len buf <= psize (u_path u)  (SInv, opq).                            *)
+(* Two things read the REMAINING INPUT as a whole and are outside what the model measures:     *)
+(*   inputString.remainingStartsWith builds  string(i.runes[i.pointer+1:])  - O(remaining) -   *)
+(*     on every call; it is called from Scheme (on ':'), SpecialRelativeOrAuthority,           *)
+(*     SpecialAuthoritySlashes and once in parseIPv6;                                          *)
+(*   inputString.remainingFromPointer likewise, called from File and FileSlash.                *)
+(* None of these states has a self loop other than Scheme, which leaves on ':' (rank in        *)
+(* Proofs/Termination.v strictly decreases on every change of state), so each is executed at   *)
+(* most once per run: O(n) in total, not O(n^2).  No construct was found that copies the       *)
+(* remaining input, or the buffer, at every iteration.                                         *)
+(* ------------------------------------------------------------------------------------------ *)
